@@ -7,7 +7,7 @@
     reachable from no other database (separation).  Frozen databases may
     share containers — [extended_with] does share them — which is harmless
     because nothing mutates the containers of a frozen database. *)
-From Coq Require Import NArith List Bool Arith Lia.
+From Coq Require Import NArith List Bool Arith Lia FinFun.
 From PLV Require Import Base.PyStr Ctx.CtxSpec Ctx.CtxHeap Proofs.CtxFacts Proofs.CtxRefine.
 Import ListNotations.
 
@@ -379,4 +379,336 @@ Proof.
       rewrite insert_at_app_r by (rewrite map_length; exact Hi). rewrite map_insert_at. reflexivity.
   - unfold s_add_cat. cbn [s_cats s_unk_m s_unk_e s_unk_s s_frozen]. rewrite map_insert_at, map_map.
     reflexivity.
+Qed.
+
+(** * The auto-generated name is fresh (the counter loop needs at most
+      [length cats] extra rounds) *)
+
+Lemma fresh_auto_f_spec fuel cats : forall n,
+  mem_cat (CAuto (fresh_auto_f fuel cats n)) cats = true ->
+  forall k, k < fuel -> In (CAuto (n + k)) cats.
+Proof.
+  induction fuel as [|f IH]; intros n H k Hk; [lia|]. cbn [fresh_auto_f] in H.
+  destruct (mem_cat (CAuto n) cats) eqn:E; [|congruence].
+  destruct k as [|k].
+  - rewrite Nat.add_0_r. apply mem_cat_In. exact E.
+  - replace (n + S k) with (S n + k) by lia. apply IH; [exact H | lia].
+Qed.
+
+Lemma fresh_auto_fresh cats n : ~ In (CAuto (fresh_auto cats n)) cats.
+Proof.
+  intros H. apply mem_cat_In in H. unfold fresh_auto in H.
+  pose proof (fresh_auto_f_spec _ _ _ H) as K.
+  assert (N : NoDup (map (fun k => CAuto (n + k)) (seq 0 (S (length cats))))).
+  { apply Injective_map_NoDup; [intros a b E; inversion E; lia | apply seq_NoDup]. }
+  assert (I : incl (map (fun k => CAuto (n + k)) (seq 0 (S (length cats)))) cats).
+  { intros x Hx. apply in_map_iff in Hx. destruct Hx as (k & <- & Hk). apply in_seq in Hk. apply K. lia. }
+  pose proof (NoDup_incl_length N I) as L. rewrite map_length, seq_length in L. lia.
+Qed.
+
+(** * add_context_category *)
+
+Lemma do_add_ok allow hp d s c ms es_ ss pl hp' d' r :
+  Rep hp d s -> NoDup (mlocs d) ->
+  do_add allow hp d c ms es_ ss pl = (hp', d', r) ->
+  mlocs d' = mlocs d /\ frozen d' = frozen d /\
+  match r with
+  | ROk => frozen d = false /\
+           (exists c', ~ In c' (map sc_name (s_cats s)) /\
+                       (c = Some c' \/ (c = None /\ exists n, c' = CAuto n)) /\
+                       Rep hp' d' (s_add_cat s c' ms es_ ss pl)) /\
+           imm_ext hp hp' /\
+           (forall l, l < length hp -> ~ In l (mlocs d) -> hget hp' l = hget hp l)
+  | RRaise e => hp' = hp /\ Rep hp d' s /\ (frozen d = true -> e = RuntimeError /\ d' = d)
+  | _ => False
+  end.
+Proof.
+  intros R ND. unfold do_add. destruct (frozen d) eqn:Fz.
+  { intros E; injection E as <- <- <-. auto 8. }
+  destruct (match c with Some (CAuto _) => negb allow | _ => false end).
+  { intros E; injection E as <- <- <-. repeat split; auto. discriminate. }
+  destruct c as [c'|].
+  - intros E. destruct (add_named_ok _ _ _ _ _ _ _ _ _ _ _ R ND E) as [-> K].
+    split; [reflexivity|]. split; [exact Fz|]. destruct r; try contradiction.
+    + destruct K as (K1 & K2 & K3 & K4). repeat split; auto. exists c'. auto.
+    + destruct K as (-> & -> & K3). repeat split; auto; discriminate.
+  - pose proof R as R0. destruct R as (ddl & es & H1 & _). rewrite H1.
+    set (n := fresh_auto (map ce_cat es) (counter d)). intros E.
+    assert (R1 : Rep hp (set_counter (S n) d) s) by (apply Rep_counter; exact R0).
+    destruct (add_named_ok _ _ _ _ _ _ _ _ _ _ _ R1 ND E) as [-> K].
+    split; [reflexivity|]. split; [exact Fz|]. destruct r; try contradiction.
+    + destruct K as (K1 & K2 & K3 & K4). repeat split; auto. exists (CAuto n). repeat split; eauto.
+    + destruct K as (-> & -> & K3). repeat split; auto; discriminate.
+Qed.
+
+(** * __init__ *)
+
+Lemma init_db_facts hp : let (hp', d0) := init_db hp in
+  (exists os, hp' = hp ++ os) /\ NoDup (mlocs d0) /\ (forall l, In l (mlocs d0) -> length hp <= l) /\
+  forall um ue us fz n,
+    Rep hp' (mkdb (cl d0) (dd d0) (cm_m d0) (cm_e d0) (cm_s d0) um ue us fz n) (mksdb [] um ue us fz).
+Proof.
+  cbn [init_db]. set (b := length hp). split; [eexists; reflexivity|]. split; [|split].
+  - unfold mlocs; cbn [cl cm_m cm_e cm_s dd]. repeat (apply NoDup_cons; [cbn [In]; lia|]). apply NoDup_nil.
+  - unfold mlocs; cbn [cl cm_m cm_e cm_s dd In]. intros l H. lia.
+  - intros um ue us fz n. exists [], []. cbn [cl dd cm_m cm_e cm_s map app]. repeat split.
+    + unfold get_list. subst b. rewrite hget_app_new0. reflexivity.
+    + constructor.
+    + unfold get_d. subst b. rewrite hget_app_new. reflexivity.
+    + constructor.
+    + intros [| |]; cbn [chain_of cm_m cm_e cm_s]; unfold get_chain, get_dict; subst b.
+      * exists (length hp + 2). rewrite !hget_app_new. split; reflexivity.
+      * exists (length hp + 4). rewrite !hget_app_new. split; reflexivity.
+      * exists (length hp + 6). rewrite !hget_app_new. split; reflexivity.
+Qed.
+
+(** * extended_with *)
+
+Lemma Rep_app hp os d s : Rep hp d s -> Rep (hp ++ os) d s.
+Proof.
+  intros R. apply (Rep_frame hp); [apply imm_ext_app | | exact R].
+  intros l Hl. apply hget_app_old. eapply Rep_mlocs_bound; eauto.
+Qed.
+
+Lemma Rep_reads hp d s : Rep hp d s ->
+  exists ddl es zm ze zs,
+    get_list hp (cl d) = Some (map ce_cat es) /\ NoDup (map ce_cat es) /\
+    get_d hp (dd d) = Some ddl /\ Forall (centry_ok hp ddl) es /\
+    get_chain hp (cm_m d) = Some (map ce_lm es ++ [zm]) /\
+    get_chain hp (cm_e d) = Some (map ce_le es ++ [ze]) /\
+    get_chain hp (cm_s d) = Some (map ce_ls es ++ [zs]) /\
+    get_dict hp zm = Some [] /\ get_dict hp ze = Some [] /\ get_dict hp zs = Some [] /\
+    s = mksdb (map scat_of es) (unk_m d) (unk_e d) (unk_s d) (frozen d).
+Proof.
+  intros (ddl & es & H1 & Hnd & H3 & H4 & H5 & Hs).
+  destruct (H5 KM) as (zm & Hm & Hzm), (H5 KE) as (ze & He & Hze), (H5 KS) as (zs & Hs' & Hzs).
+  exists ddl, es, zm, ze, zs. repeat split; auto.
+Qed.
+
+(** the new-category branch: the new database object represents the source's
+    categories with the new one in front *)
+Lemma extend_new_rep hp X ddl es zm ze zs c' nm ne ns um' ue' us' cnt' :
+  Forall (centry_ok hp ddl) es -> NoDup (map ce_cat es) -> ~ In c' (map ce_cat es) ->
+  get_dict hp zm = Some [] -> get_dict hp ze = Some [] -> get_dict hp zs = Some [] ->
+  let hp0 := hp ++ X in let b := length hp0 in
+  let hp1 := hp0 ++ [ODict nm; ODict ne; ODict ns; OCatD b (b + 1) (b + 2)] in
+  let b1 := length hp1 in
+  let hp2 := hp1 ++ [OD (d_set ddl c' (b + 3)); OList (c' :: map ce_cat es);
+                     OChain (b :: map ce_lm es ++ [zm]); OChain ((b + 1) :: map ce_le es ++ [ze]);
+                     OChain ((b + 2) :: map ce_ls es ++ [zs])] in
+  Rep hp2 (mkdb (b1 + 1) b1 (b1 + 2) (b1 + 3) (b1 + 4) um' ue' us' true cnt')
+      (mksdb (mkscat c' nm ne ns :: map scat_of es) um' ue' us' true).
+Proof.
+  intros H4 Hnd Hc Hzm Hze Hzs hp0 b hp1 b1 hp2.
+  assert (I : imm_ext hp hp2).
+  { subst hp2 hp1 hp0. eapply imm_ext_trans; [|apply imm_ext_app].
+    eapply imm_ext_trans; apply imm_ext_app. }
+  assert (L1 : b1 = b + 4) by (subst b1 hp1; rewrite app_length; cbn [length]; lia).
+  assert (New1 : forall k, k < 4 -> hget hp2 (b + k) =
+            nth_error [ODict nm; ODict ne; ODict ns; OCatD b (b + 1) (b + 2)] k).
+  { intros k Hk. subst hp2. rewrite hget_app_old by lia. subst hp1 b. apply hget_app_new. }
+  set (enew := mkce c' (b + 3) b (b + 1) (b + 2) nm ne ns).
+  exists (d_set ddl c' (b + 3)), (enew :: es). cbn [cl dd cm_m cm_e cm_s map]. repeat split.
+  - unfold get_list. subst hp2 b1. rewrite hget_app_new. reflexivity.
+  - constructor; assumption.
+  - unfold get_d. subst hp2 b1. rewrite hget_app_new0. reflexivity.
+  - constructor.
+    + unfold enew. repeat split; cbn [ce_cat ce_cd ce_lm ce_le ce_ls].
+      * apply d_get_set_same.
+      * unfold get_catd. rewrite (New1 3) by lia. reflexivity.
+      * intros [| |]; cbn [ce_l ce_d ce_lm ce_le ce_ls ce_m ce_e ce_s]; unfold get_dict.
+        -- pose proof (New1 0) as N. rewrite Nat.add_0_r in N. rewrite N by lia. reflexivity.
+        -- rewrite (New1 1) by lia. reflexivity.
+        -- rewrite (New1 2) by lia. reflexivity.
+    + rewrite Forall_forall in H4 |- *. intros e Hin. apply (centry_ok_set hp); auto.
+      intros Ec. apply Hc. rewrite <- Ec. apply in_map. exact Hin.
+  - intros [| |]; cbn [chain_of cm_m cm_e cm_s]; unfold get_chain; subst hp2 b1; rewrite hget_app_new;
+      cbn [nth_error].
+    + exists zm. split; [reflexivity | eapply imm_get_dict; eauto].
+    + exists ze. split; [reflexivity | eapply imm_get_dict; eauto].
+    + exists zs. split; [reflexivity | eapply imm_get_dict; eauto].
+Qed.
+
+(** the merge branch: the leading (auto-generated) category gets updated
+    copies of its dicts, everything else is shared with the source *)
+Lemma extend_merge_rep hp X ddl e0 es zm ze zs lcl nm ne ns um' ue' us' cnt' :
+  Forall (centry_ok hp ddl) (e0 :: es) -> NoDup (map ce_cat (e0 :: es)) ->
+  get_list hp lcl = Some (map ce_cat (e0 :: es)) ->
+  get_dict hp zm = Some [] -> get_dict hp ze = Some [] -> get_dict hp zs = Some [] ->
+  let hp1 := hp ++ X in
+  let b1 := length hp1 in
+  let hp2 := hp1 ++ [ODict (dict_update (ce_m e0) nm); ODict (dict_update (ce_e e0) ne);
+                     ODict (dict_update (ce_s e0) ns); OCatD b1 (b1 + 1) (b1 + 2);
+                     OD (d_set ddl (ce_cat e0) (b1 + 3));
+                     OChain (b1 :: map ce_lm es ++ [zm]); OChain ((b1 + 1) :: map ce_le es ++ [ze]);
+                     OChain ((b1 + 2) :: map ce_ls es ++ [zs])] in
+  Rep hp2 (mkdb lcl (b1 + 4) (b1 + 5) (b1 + 6) (b1 + 7) um' ue' us' true cnt')
+      (mksdb (mkscat (ce_cat e0) (dict_update (ce_m e0) nm) (dict_update (ce_e e0) ne)
+                     (dict_update (ce_s e0) ns) :: map scat_of es) um' ue' us' true).
+Proof.
+  intros H4 Hnd Hl Hzm Hze Hzs hp1 b1 hp2.
+  assert (I : imm_ext hp hp2).
+  { subst hp2 hp1. eapply imm_ext_trans; apply imm_ext_app. }
+  assert (New : forall k, hget hp2 (b1 + k) = nth_error
+            [ODict (dict_update (ce_m e0) nm); ODict (dict_update (ce_e e0) ne);
+             ODict (dict_update (ce_s e0) ns); OCatD b1 (b1 + 1) (b1 + 2);
+             OD (d_set ddl (ce_cat e0) (b1 + 3));
+             OChain (b1 :: map ce_lm es ++ [zm]); OChain ((b1 + 1) :: map ce_le es ++ [ze]);
+             OChain ((b1 + 2) :: map ce_ls es ++ [zs])] k).
+  { intros k. subst hp2 b1. apply hget_app_new. }
+  inversion H4 as [|? ? He0 Hes]; subst. cbn [map] in Hnd. inversion Hnd as [|? ? Hc0 Hnd']; subst.
+  set (enew := mkce (ce_cat e0) (b1 + 3) b1 (b1 + 1) (b1 + 2)
+                    (dict_update (ce_m e0) nm) (dict_update (ce_e e0) ne) (dict_update (ce_s e0) ns)).
+  exists (d_set ddl (ce_cat e0) (b1 + 3)), (enew :: es). cbn [cl dd cm_m cm_e cm_s map]. repeat split.
+  - unfold get_list in *. destruct (hget hp lcl) as [o|] eqn:E; [|discriminate].
+    assert (Lb : lcl < length hp) by (eapply hget_bound; eauto).
+    subst hp2 hp1. rewrite !hget_app_old by (rewrite ?app_length; lia). rewrite E. exact Hl.
+  - constructor; assumption.
+  - unfold get_d. rewrite (New 4). reflexivity.
+  - constructor.
+    + unfold enew. repeat split; cbn [ce_cat ce_cd ce_lm ce_le ce_ls].
+      * apply d_get_set_same.
+      * unfold get_catd. rewrite (New 3). reflexivity.
+      * intros [| |]; cbn [ce_l ce_d ce_lm ce_le ce_ls ce_m ce_e ce_s]; unfold get_dict.
+        -- pose proof (New 0) as N. rewrite Nat.add_0_r in N. rewrite N. reflexivity.
+        -- rewrite (New 1). reflexivity.
+        -- rewrite (New 2). reflexivity.
+    + rewrite Forall_forall in Hes |- *. intros e Hin. apply (centry_ok_set hp); auto.
+      intros Ec. apply Hc0. rewrite <- Ec. apply in_map. exact Hin.
+  - intros [| |]; cbn [chain_of cm_m cm_e cm_s]; unfold get_chain; rewrite New; cbn [nth_error].
+    + exists zm. split; [reflexivity | eapply imm_get_dict; eauto].
+    + exists ze. split; [reflexivity | eapply imm_get_dict; eauto].
+    + exists zs. split; [reflexivity | eapply imm_get_dict; eauto].
+Qed.
+
+Definition leading_auto (names : list cat) : bool :=
+  match names with CAuto _ :: _ => true | _ => false end.
+
+(** what [extended_with] returns, abstractly *)
+Definition ext_meaning (s : sdb) (c : option cat) (ms es ss : list spec)
+           (um ue us : option (option spec)) (sn : sdb) : Prop :=
+  match c with
+  | Some c' => sn = s_extend_new s c' ms es ss um ue us
+  | None => if leading_auto (map sc_name (s_cats s))
+            then sn = s_extend_merge s ms es ss um ue us
+            else exists a, ~ In (CAuto a) (map sc_name (s_cats s)) /\
+                           sn = s_extend_new s (CAuto a) ms es ss um ue us
+  end.
+
+Lemma do_extend_ok hp d s c ms es_ ss um ue us hp' d' nd r :
+  Rep hp d s ->
+  do_extend hp d c ms es_ ss um ue us = (hp', d', nd, r) ->
+  (exists os, hp' = hp ++ os) /\ mlocs d' = mlocs d /\ frozen d' = frozen d /\ Rep hp' d' s /\
+  match nd with
+  | Some n => r = ROk /\ frozen d = true /\ frozen n = true /\ NoDup (mlocs n) /\
+              (forall l, In l (mlocs n) -> length hp <= l \/ In l (mlocs d)) /\
+              exists sn, Rep hp' n sn /\ ext_meaning s c ms es_ ss um ue us sn
+  | None => hp' = hp /\ d' = d /\
+            ((r = RRaise ValueError /\ exists c', c = Some c' /\ In c' (map sc_name (s_cats s))) \/
+             (r = RRaise RuntimeError /\ frozen d = false))
+  end.
+Proof.
+  intros R. pose proof R as R0.
+  destruct (Rep_reads _ _ _ R) as (ddl & es & zm & ze & zs & H1 & Hnd & H3 & H4 & Hm & He & Hs & Hzm & Hze & Hzs & ->).
+  clear R. unfold do_extend. rewrite H1, H3, Hm, He, Hs. cbn [s_cats]. rewrite map_map.
+  change (map (fun x => sc_name (scat_of x)) es) with (map ce_cat es).
+  destruct (match c with Some c' => mem_cat c' (map ce_cat es) | None => false end) eqn:Mc.
+  { intros E; injection E as <- <- <- <-. split; [exists []; rewrite app_nil_r; reflexivity|].
+    repeat split; auto. left. split; [reflexivity|]. destruct c as [c'|]; [|discriminate].
+    exists c'. split; [reflexivity | apply mem_cat_In; exact Mc]. }
+  destruct (frozen d) eqn:Fz; cbn [negb].
+  2:{ intros E; injection E as <- <- <- <-. split; [exists []; rewrite app_nil_r; reflexivity|].
+      repeat split; auto. }
+  cbn [init_db].
+  set (X := [OList []; OD []; ODict []; OChain [length hp + 2]; ODict []; OChain [length hp + 4];
+             ODict []; OChain [length hp + 6]]).
+  assert (NewBranch : forall c' d1 cnt',
+     ~ In c' (map ce_cat es) -> mlocs d1 = mlocs d -> frozen d1 = true -> Rep hp d1
+        (mksdb (map scat_of es) (unk_m d) (unk_e d) (unk_s d) true) ->
+     (if mem_cat c' (map ce_cat es) then (hp, d1, @None db, RStuck) else
+       let b := length (hp ++ X) in
+       let hp1 := (hp ++ X) ++ [ODict (dict_of_specs ms); ODict (dict_of_specs es_); ODict (dict_of_specs ss);
+                                OCatD b (b + 1) (b + 2)] in
+       let b1 := length hp1 in
+       (hp1 ++ [OD (d_set ddl c' (b + 3)); OList (c' :: map ce_cat es);
+                OChain (b :: map ce_lm es ++ [zm]); OChain ((b + 1) :: map ce_le es ++ [ze]);
+                OChain ((b + 2) :: map ce_ls es ++ [zs])], d1,
+        Some (mkdb (b1 + 1) b1 (b1 + 2) (b1 + 3) (b1 + 4) (ovr um (unk_m d)) (ovr ue (unk_e d))
+                   (ovr us (unk_s d)) true cnt'), ROk)) = (hp', d', nd, r) ->
+     (exists os, hp' = hp ++ os) /\ mlocs d' = mlocs d /\ frozen d' = true /\
+     Rep hp' d' (mksdb (map scat_of es) (unk_m d) (unk_e d) (unk_s d) true) /\
+     match nd with
+     | Some n => r = ROk /\ true = true /\ frozen n = true /\ NoDup (mlocs n) /\
+                 (forall l, In l (mlocs n) -> length hp <= l \/ In l (mlocs d)) /\
+                 Rep hp' n (s_extend_new (mksdb (map scat_of es) (unk_m d) (unk_e d) (unk_s d) true)
+                                         c' ms es_ ss um ue us)
+     | None => False
+     end).
+  { intros c' d1 cnt' Hc Em Ef R1. apply mem_cat_false in Hc. rewrite Hc. apply mem_cat_false in Hc.
+    cbv zeta. intros E; injection E as <- <- <- <-.
+    split; [eexists; rewrite <- !app_assoc; reflexivity|]. split; [exact Em|]. split; [exact Ef|].
+    split; [apply Rep_app, Rep_app, Rep_app; exact R1|].
+    split; [reflexivity|]. split; [reflexivity|]. split; [reflexivity|].
+    assert (LX : length (hp ++ X) = length hp + 8) by (rewrite app_length; reflexivity).
+    split; [|split].
+    - unfold mlocs; cbn [cl cm_m cm_e cm_s dd]. repeat (apply NoDup_cons; [cbn [In]; lia|]). apply NoDup_nil.
+    - unfold mlocs at 1; cbn [cl cm_m cm_e cm_s dd In]. intros l Hl. left.
+      rewrite !app_length in Hl. cbn [length] in Hl. lia.
+    - apply (extend_new_rep hp X ddl es zm ze zs c'); assumption. }
+  destruct c as [c'|].
+  - (* explicit category *)
+    intros E.
+    assert (P1 : ~ In c' (map ce_cat es)) by (apply mem_cat_false; exact Mc).
+    destruct (NewBranch c' d (counter d) P1 eq_refl Fz R0 E) as (K1 & K2 & K3 & K4 & K5).
+    destruct nd as [n|]; [|contradiction]. destruct K5 as (-> & _ & K6 & K7 & K8 & K9).
+    repeat split; auto. eexists. split; [exact K9 | reflexivity].
+  - destruct es as [|e0 es0].
+    + (* no category at all: new auto-generated one *)
+      cbn [map]. intros E.
+      assert (P1 : ~ In (CAuto (fresh_auto [] (counter d))) (map ce_cat [])) by (intros []).
+      destruct (NewBranch (CAuto (fresh_auto [] (counter d))) (set_counter (fresh_auto [] (counter d)) d)
+                          (S (fresh_auto [] (counter d))) P1 eq_refl Fz (Rep_counter _ _ _ _ R0) E)
+        as (K1 & K2 & K3 & K4 & K5).
+      destruct nd as [n|]; [|contradiction]. destruct K5 as (-> & _ & K6 & K7 & K8 & K9).
+      repeat split; auto. eexists. split; [exact K9|]. cbn [ext_meaning s_cats map leading_auto].
+      eexists. split; [|reflexivity]. intros [].
+    + cbn [map]. destruct (ce_cat e0) as [u|a] eqn:Ec.
+      * (* leading user category: new auto-generated one *)
+        intros E. rewrite <- Ec in *.
+        set (cats := ce_cat e0 :: map ce_cat es0) in *.
+        destruct (NewBranch (CAuto (fresh_auto cats (counter d))) (set_counter (fresh_auto cats (counter d)) d)
+                            (S (fresh_auto cats (counter d))) (fresh_auto_fresh _ _) eq_refl Fz
+                            (Rep_counter _ _ _ _ R0) E) as (K1 & K2 & K3 & K4 & K5).
+        destruct nd as [n|]; [|contradiction]. destruct K5 as (-> & _ & K6 & K7 & K8 & K9).
+        repeat split; auto. eexists. split; [exact K9|]. cbn [ext_meaning s_cats map leading_auto].
+        change (sc_name (scat_of e0)) with (ce_cat e0). rewrite Ec. eexists. split; [|reflexivity].
+        rewrite map_map. change (map (fun x => sc_name (scat_of x)) es0) with (map ce_cat es0).
+        rewrite <- Ec. apply fresh_auto_fresh.
+      * (* leading auto-generated category: merge *)
+        pose proof H4 as H4'. inversion H4' as [|? ? He0 Hes]; subst.
+        destruct He0 as (G1 & G2 & G3). rewrite Ec in G1. rewrite G1, G2.
+        pose proof (G3 KM) as GM. pose proof (G3 KE) as GE. pose proof (G3 KS) as GS.
+        cbn [ce_l ce_d] in GM, GE, GS. cbn iota. rewrite GM, GE, GS. cbn [tl map app].
+        intros E; injection E as <- <- <- <-.
+        split; [eexists; rewrite <- !app_assoc; reflexivity|]. split; [reflexivity|]. split; [exact Fz|].
+        split; [apply Rep_app, Rep_app, Rep_app; exact R0|].
+        split; [reflexivity|]. split; [reflexivity|]. split; [reflexivity|].
+        set (N4 := [ODict (dict_of_specs ms); ODict (dict_of_specs es_); ODict (dict_of_specs ss); OCatD _ _ _]).
+        set (hp1 := (hp ++ X) ++ N4).
+        assert (L1 : length hp1 = length hp + 12) by (subst hp1; unfold X, N4; rewrite !app_length; cbn [length]; lia).
+        assert (Ehp1 : hp1 = hp ++ (X ++ N4)) by (subst hp1; rewrite <- app_assoc; reflexivity).
+        split; [|split].
+        -- unfold mlocs; cbn [cl cm_m cm_e cm_s dd]. apply NoDup_cons.
+           ++ cbn [In]. pose proof (Rep_mlocs_bound _ _ _ (cl d) R0) as Bc.
+              assert (cl d < length hp) by (apply Bc; cbn [mlocs In]; auto). lia.
+           ++ repeat (apply NoDup_cons; [cbn [In]; lia|]). apply NoDup_nil.
+        -- unfold mlocs at 1; cbn [cl cm_m cm_e cm_s dd In]. intros l Hl.
+           destruct Hl as [<-|Hl]; [right; cbn [mlocs In]; auto | left; lia].
+        -- eexists. split.
+           ++ rewrite <- Ec. clearbody hp1. subst hp1.
+              apply (extend_merge_rep hp (X ++ N4) ddl e0 es0 zm ze zs (cl d)); auto.
+           ++ cbn [ext_meaning s_cats map leading_auto].
+              change (sc_name (scat_of e0)) with (ce_cat e0). rewrite Ec.
+              unfold s_extend_merge. cbn [s_cats s_unk_m s_unk_e s_unk_s scat_of sc_name sc_m sc_e sc_s].
+              rewrite ?Ec. reflexivity.
 Qed.
